@@ -1,9 +1,10 @@
 (* Extraction of the codec model for the correspondence check (ExtrOcamlBasic only:
    bool/option/list/prod/unit/sumbool mapped to OCaml's; numbers stay Coq's inductive
    positive/N/Z; no Extract Constant). *)
-From Aldrin Require Import Codec.Ser Codec.De Codec.Skip.
+From Aldrin Require Import Codec.Ser Codec.De Codec.Skip Codec.Convert.
 Require Extraction ExtrOcamlBasic.
 Extraction Language OCaml.
 Extraction "codec_model.ml" serialize ser_raw de_as_value de_value skip_value value_len split_off
   de_as_serialized peek_kind kind_byte
+  convert_api conv_value v1_only
   N.of_nat N.to_nat Z.of_N Z.to_N N.add N.mul Z.opp lenN.
